@@ -71,12 +71,15 @@ const (
 )
 
 type fnCtx struct {
-	sig     *FuncSig
-	pure    bool
-	labels  map[string]bool
-	names   map[string]bool // every local name used in this function (for fresh loop variables)
-	budget  int
-	loopVar int
+	loopDepth int
+	lenBound  map[string]int // slices whose length bounds an enclosing three-clause loop
+	inClosure bool
+	sig       *FuncSig
+	pure      bool
+	labels    map[string]bool
+	names     map[string]bool // every local name used in this function (for fresh loop variables)
+	budget    int
+	loopVar   int
 }
 
 // G is the generator state for one package.
